@@ -522,6 +522,29 @@ theorem isEqual_cqm_other_fields (a : CqmVal) (ha : CqmWFv a) :
     rw [this]
     exact fun e => hne (Option.some.inj e).symm
 
+/-- **The comparison IS what the source's conjunct list says** (tie to the code: `Generated/EqFields.lean` is rewritten on every
+    run by `harness/translators/c18_cqm_fields.py` from the `return (… and …)` chains of `ConstrainedQuadraticModel.is_equal` /
+    `is_almost_equal` and of their nested `constraint_eq`).  Interpreting those lists conjunct by conjunct, left to right with
+    short-circuit `and` (`Eqm.cqmCmpBy`: objective, variable set, per-variable types, constraint labels, then per constraint
+    sense, lhs, rhs), gives exactly the modelled comparison `cqmCmp` — hence `is_equal` and `is_almost_equal` of the model, to
+    which every theorem of this file applies; both methods start with the `isinstance` guard.  Dropping, adding or reordering a
+    conjunct in the source changes the generated lists and breaks this theorem. -/
+theorem generated_comparison_is_the_model (p : Int) (a b : CqmVal) :
+    Generated.EqFields.isEqualGuard = true ∧ Generated.EqFields.almostGuard = true
+    ∧ isEqual (.cqm a) (.cqm b)
+        = cqmCmpBy Generated.EqFields.isEqualTop Generated.EqFields.isEqualCons
+            (fun x y => modelIsEqualWith true x (.model y)) (fun x y => decide (x = y)) a b
+    ∧ isAlmostEqual p (.cqm a) (.cqm b)
+        = cqmCmpBy Generated.EqFields.almostTop Generated.EqFields.almostCons
+            (fun x y => modelAlmostWith true true p x (.model y)) (fun x y => roundsToZero p (x - y)) a b := by
+  refine ⟨rfl, rfl, ?_, ?_⟩
+  · show cqmIsEqualWith true true true a (.cqm b) = _
+    rw [cqmIsEqual_eq_cmp]
+    exact (cqmCmpBy_eq "rhs exact" (Or.inl rfl) _ _ a b).symm
+  · show cqmAlmostWith true true true true p a (.cqm b) = _
+    rw [cqmAlmost_eq_cmp]
+    exact (cqmCmpBy_eq "rhs rounded" (Or.inr rfl) _ _ a b).symm
+
 /-- **Scope of the comparison (recorded, not part of the property's list).**  `is_equal` / `is_almost_equal` read of a CQM only
     `CqmFull.observed`: two CQMs that differ ONLY in a soft weight, a penalty type, a discrete mark or a variable bound have the
     same observed value, so every comparison involving one gives the answer it gives for the other. -/
